@@ -9,7 +9,7 @@
 From Coq Require Import List NArith Bool String.
 From Verif Require Import Lib.Utf8 Jsonx.Lex Jsonx.Tok Jsonx.GoStr Jsonx.Num Jsonx.NumProofs
   Jsonx.Parse Jsonx.Json Jsonx.Encode Jsonx.Print Jsonx.PrintProofs Jsonx.Roundtrip
-  Jsonx.GenTypes Gen.JsonxConsts Jsonx.ConstsGen.
+  Jsonx.GenTypes Gen.JsonxConsts Gen.JsonxOwn Jsonx.Own Jsonx.ConstsGen.
 Import ListNotations.
 Local Open Scope N_scope.
 
@@ -118,6 +118,44 @@ Theorem C07_source_agrees_with_model :
   gen_max_errs = Some (N.of_nat max_errs).
 Proof. exact (conj gen_exp_sign_agree gen_max_errs_agree). Qed.
 Print Assumptions C07_source_agrees_with_model.
+
+(** Ownership: the bytes Marshal returns are the caller's.  For the allocation
+    policy read from the source on this run (gen/jsonx_own.go: every []byte
+    result is a buffer made in that call, there is no package-level buffer
+    or pool), after ANY history of calls and of caller writes into results
+    it was handed, what the caller reads from each result is what value
+    semantics says ([spec]: independent values, each changed only by its
+    owner); and the result of a call is the function of that call's input
+    alone, until the caller overwrites that very result. *)
+Theorem C07_results_owned_by_caller : forall (F : list N -> list N) h k,
+  read (run F (policy_of gen_result_origins gen_pkg_buffers) h) k = nth_error (spec F h) k.
+Proof. exact gen_results_owned. Qed.
+Print Assumptions C07_results_owned_by_caller.
+
+Theorem C07_result_function_of_its_input_only : forall (F : list N -> list N) h1 i h2,
+  forallb (fun e => negb (writes_to (ncalls h1) e)) h2 = true ->
+  read (run F (policy_of gen_result_origins gen_pkg_buffers) (h1 ++ ECall i :: h2)) (ncalls h1) = Some (F i).
+Proof. exact gen_result_stable. Qed.
+Print Assumptions C07_result_function_of_its_input_only.
+
+(** ... whereas a buffer the implementation keeps (a package-level buffer, a
+    sync.Pool) is overwritten by the next call while the first caller still
+    holds it. *)
+Theorem C07_pooled_buffer_refuted : forall (F : list N -> list N) a b, F a <> F b ->
+  read (run F Pooled [ECall a; ECall b]) 0 = Some (F b) /\
+  nth_error (spec F [ECall a; ECall b]) 0 = Some (F a) /\
+  read (run F Pooled [ECall a; ECall b]) 0 <> nth_error (spec F [ECall a; ECall b]) 0.
+Proof. exact pooled_refuted. Qed.
+Print Assumptions C07_pooled_buffer_refuted.
+
+Example C07_ownership_example :
+  (* three calls; the caller scribbles over the first result after the second call *)
+  let h := [ECall [1]; ECall [2]; EWrite 0 [9; 9]; ECall [3]]%N in
+  map (read (run (fun i => i ++ i) Fresh h)) [0; 1; 2]%nat
+  = [Some [9; 9]; Some [2; 2]; Some [3; 3]]%N /\
+  map (read (run (fun i => i ++ i) Pooled h)) [0; 1; 2]%nat
+  = [Some [3; 3]; Some [3; 3]; Some [3; 3]]%N.
+Proof. vm_compute. split; reflexivity. Qed.
 
 (** Non-vacuity: a value with a negative fraction, an exponent with "+", an
     integer above 2^63, keyword and non-identifier keys, escapes and nesting. *)
